@@ -671,12 +671,15 @@ fn family_prop(ctx: &RunCtx, fams: &[&str]) -> i32 {
     let e2e = fams.contains(&"e2e");
     let k = fams.len() as u64;
     let agg = run_parallel(prop, n, &ctx.known, |i| {
-        if prop == "C07" && (1..=48).contains(&i) {
-            // a retried call keeps the caller's deadline on every attempt (Retry stub)
+        if (prop == "C07" || prop == "C18") && (1..=192).contains(&i) {
+            // a retried call keeps the caller's deadline and trace on every attempt (Retry stub),
+            // whatever made the earlier attempts fail
             let k = i - 1;
             let policy: Vec<bool> = (0..(k % 4)).map(|b| (k >> b) & 1 == 0).collect();
-            let results: Vec<Result<u64, String>> = (0..=policy.len()).map(|j| if (j + k as usize) % 2 == 0 { Err(format!("e{j}")) } else { Ok(j as u64) }).collect();
-            return misc::c20_retry(&policy, &results, (k / 12) as u8, json!({"family": "S-stubs", "case": "retry deadline", "index": i}));
+            let errs = ["e", "DEADLINE", "SHUTDOWN", "SEND"];
+            let ek = errs[((k / 48) % 4) as usize];
+            let results: Vec<Result<u64, String>> = (0..=policy.len()).map(|j| if (j + k as usize) % 2 == 0 { Err(if ek == "e" { format!("e{j}") } else { ek.to_string() }) } else { Ok(j as u64) }).collect();
+            return misc::c20_retry(&policy, &results, ((k / 12) % 4) as u8, json!({"family": "S-stubs", "case": "retry context", "index": i}));
         }
         if prop == "C07" && i == 0 {
             // the documented 10-second default for a request that omits its deadline
